@@ -41,48 +41,115 @@ def stmt_index(block, node):
     return None
 
 
-def sums_all(F, g, depth=0):
-    """does reduction function g add every accumulators[i], i >= 1, into accumulators[0] on every path to every return?"""
-    if depth > 3:
-        return False, "delegation too deep"
-    cfg = g.cfg
-    loops = [x for x in g.nodes() if x["k"] == "for"]
-    good_loop = None
-    for lp in loops:
-        init, cond, inc, body = (lp["c"][lp["r"].index(r)] for r in ("init", "cond", "inc", "body"))
-        iv = init["c"][0] if init["k"] == "declstmt" else None
-        if iv is None:
-            continue
-        adds = [x for x in walk(body) if assignment(x) and assignment(x)[2] == "+="]
-        p0 = g.params[0]["n"]
-        if pp(iv["c"][0]) == "1" and pp(cond) == "(%s < %s.size())" % (iv["n"], p0) and pp(inc) == "(++%s)" % iv["n"] and len(adds) == 1 and \
-                pp(assignment(adds[0])[1]) == "%s[%s]" % (p0, iv["n"]):
-            tgt = assignment(adds[0])[0]
-            d = ref_decl(tgt)
-            var, _ = find_var(g, d) if d is not None else (None, None)
-            if (var is not None and var.get("c") and pp(var["c"][0]) == "%s[0]" % p0) or pp(tgt) == "%s[0]" % p0:
-                good_loop = lp
-    rets = [x for x in g.nodes() if x["k"] == "return"]
-    if not rets:
-        return False, "no return"
-    for r in rets:
-        v = skip(r["c"][0]) if r.get("c") else None
-        if v is not None and v["k"] == "call" and callee(v) == "nano::sum_reduce":
-            tg = F.resolve(v)
-            if tg and tg[0] is not g:
-                ok, why = sums_all(F, tg[0], depth + 1)
-                if ok:
-                    continue
-                return False, "delegates to a reduction that " + why
-        if good_loop is None:
-            return False, "has a return (%s) that is not preceded by the loop adding accumulators[1..] into accumulators[0]" % pp(r)[:60]
-        lw = cfg.where_enclosing(good_loop["c"][good_loop["r"].index("cond")])
-        rw = cfg.where_enclosing(r)
-        if not (lw and rw and cfg.dominates(lw, rw)):
-            return False, "can return `%s` without summing the per-thread accumulators (only accumulator 0 is used)" % pp(r)[:70]
-        # normalisation by the samples argument
-        if "/=" not in pp(r) or g.params[1]["n"] not in pp(r):
-            pass
+def _reduce_eval(F, g):
+    """sum_reduce evaluated with K = 1..4 per-thread accumulators as symbols (their `+=` and `/=` read as the arithmetic they implement):
+    the result is (a_0 + ... + a_{K-1}) / samples. Returns (ok, why)."""
+    import sympy as sp
+    from ..symexec import Interp
+    from ..kalg import OutOfFragment
+
+    class Ref:
+        def __init__(self, lst, j):
+            self.lst, self.j = lst, j
+
+    class RI(Interp):
+        spawn_same = True
+
+        def ev(self, n):
+            n2 = skip(n)
+            if n2 is not None and n2["k"] == "ref" and isinstance(self.env.get(n2.get("d")), Ref):
+                r = self.env[n2["d"]]
+                return r.lst[r.j]
+            if n2 is not None and n2["k"] == "call" and n2.get("op") == "[]" and len(n2.get("c", ())) == 2:
+                base = self.ev(n2["c"][0])
+                i = sp.sympify(self.ev(n2["c"][1]))
+                if isinstance(base, list) and i.is_Integer and 0 <= int(i) < len(base):
+                    return base[int(i)]
+                raise OutOfFragment("subscript %s" % pp(n2)[:40])
+            if n2 is not None and n2["k"] == "call" and n2.get("ck") == "mem" and callee(n2).split("::")[-1] == "size" and not args(n2):
+                o = self.ev(obj(n2))
+                if isinstance(o, list):
+                    return sp.Integer(len(o))
+            if n2 is not None and n2["k"] == "call" and n2.get("ck") == "mem" and callee(n2).split("::")[-1] in ("begin", "end", "front", "back") and not args(n2):
+                o = self.ev(obj(n2))
+                if isinstance(o, list) and callee(n2).split("::")[-1] in ("front", "back") and o:
+                    return o[0] if callee(n2).endswith("front") else o[-1]
+            return super().ev(n)
+
+        def ex(self, st):
+            s0 = skip(st)
+            if s0 is not None and s0["k"] == "declstmt":
+                for v in s0.get("c", ()):
+                    if v["k"] == "var" and v.get("isref") and v.get("c"):
+                        init = skip(v["c"][0])
+                        if init["k"] == "call" and init.get("op") == "[]" and len(init["c"]) == 2:
+                            base = self.ev(init["c"][0])
+                            i = sp.sympify(self.ev(init["c"][1]))
+                            if isinstance(base, list) and i.is_Integer:
+                                self.env[v["d"]] = Ref(base, int(i))
+                                continue
+                        if init["k"] == "call" and init.get("ck") == "mem" and callee(init).split("::")[-1] in ("front", "back") and isinstance(self.ev(obj(init)), list):
+                            base = self.ev(obj(init))
+                            self.env[v["d"]] = Ref(base, 0 if callee(init).endswith("front") else len(base) - 1)
+                            continue
+                        self.env[v["d"]] = self.ev(v["c"][0])
+                    else:
+                        super().ex({"k": "declstmt", "c": [v], "i": s0.get("i"), "l": s0.get("l")})
+                return
+            if s0 is not None and s0["k"] == "rangefor":
+                r = s0["r"]
+                var, rng, body = (s0["c"][r.index(x)] for x in ("var", "range", "body"))
+                lst = self.ev(rng)
+                if not isinstance(lst, list):
+                    raise OutOfFragment("range-for over " + pp(rng)[:30])
+                for j in range(len(lst)):
+                    self.env[var["d"]] = Ref(lst, j) if var.get("isref") else lst[j]
+                    self.ex(body)
+                return
+            return super().ex(st)
+
+        def lvalue_set(self, lhs, fn):
+            l0 = skip(lhs)
+            if l0["k"] == "ref" and isinstance(self.env.get(l0.get("d")), Ref):
+                r = self.env[l0["d"]]
+                r.lst[r.j] = fn(r.lst[r.j])
+                return r.lst[r.j]
+            if l0["k"] == "call" and l0.get("op") == "[]" and len(l0["c"]) == 2:
+                base = self.ev(l0["c"][0])
+                i = sp.sympify(self.ev(l0["c"][1]))
+                if isinstance(base, list) and i.is_Integer:
+                    base[int(i)] = fn(base[int(i)])
+                    return base[int(i)]
+            return super().lvalue_set(lhs, fn)
+
+    import itertools
+    nsym = sp.Symbol("samples", positive=True)
+    extra = g.params[2:]
+    grids = [dict(zip([p_["d"] for p_ in g.params[1:]], v)) for v in itertools.product((1, 7, 100), repeat=len(g.params) - 1)] if extra else [None]
+    try:
+        for K in (1, 2, 3, 4):
+            for grid in grids:
+                it = RI(F, g, n=1)
+                acc = [sp.Symbol("a%d" % i, real=True) for i in range(K)]
+                it.env[g.params[0]["d"]] = acc
+                div = nsym
+                if grid is None:
+                    if len(g.params) > 1:
+                        it.env[g.params[1]["d"]] = nsym
+                else:
+                    # further integer parameters (a batch size, say): concrete values, so that tests on them are decided
+                    for d_, v_ in grid.items():
+                        it.env[d_] = sp.Integer(v_)
+                    div = sp.Integer(grid[g.params[1]["d"]])
+                got = it.run()
+                want = sum(sp.Symbol("a%d" % i, real=True) for i in range(K)) / div
+                if got is None or sp.simplify(sp.sympify(got) - want) != 0:
+                    miss = [i for i in range(K) if not sp.sympify(got if got is not None else 0).has(sp.Symbol("a%d" % i, real=True))]
+                    return False, "with %d per-thread accumulators%s it returns %s%s, not their sum divided by the number of samples" % (
+                        K, "" if grid is None else " and (%s)" % ", ".join("%s = %d" % (p_["n"], grid[p_["d"]]) for p_ in g.params[1:]), got,
+                        (" (accumulator%s %s never added)" % ("s" if len(miss) > 1 else "", miss)) if miss else "")
+    except OutOfFragment as e:
+        return None, "cannot be evaluated: %s" % e
     return True, ""
 
 
@@ -135,12 +202,13 @@ def rule_protocol(F, R):
         if not tg:
             R.incomplete("R-C09-1", inst + " reduction body", f.loc(reds[0]), "definition of the called sum_reduce overload not available")
         else:
-            ok, why = sums_all(F, tg[0])
-            R.check(ok, "R-C09-1", inst + " reduction sums all workers", tg[0].loc(), "the reduction adds every per-thread accumulator into the first one on every path",
-                    "the reduction " + why + ": chunks processed by other workers are dropped, the value depends on the schedule")
-            rets = [x for x in tg[0].nodes() if x["k"] == "return"]
-            okd = all("/=" in pp(x) and tg[0].params[1]["n"] in pp(x) for x in rets if not (skip(x["c"][0])["k"] == "call" and callee(skip(x["c"][0])) == "nano::sum_reduce"))
-            R.check(okd, "R-C09-1", inst + " reduction normalises", tg[0].loc(), "the reduced accumulator is divided by the sample count", "the reduction does not divide by its samples argument")
+            ok, why = _reduce_eval(F, tg[0])
+            if ok is None:
+                R.incomplete("R-C09-1", inst + " reduction sums all workers", tg[0].loc(), "the reduction " + why)
+            else:
+                R.check(ok, "R-C09-1", inst + " reduction sums all workers", tg[0].loc(),
+                        "the reduction returns the sum of all per-thread accumulators divided by the sample count (evaluated for 1..4 accumulators)",
+                        "the reduction " + why + ": chunks processed by other workers are dropped or mis-scaled, the value depends on the schedule")
         # after the loop only the reduced accumulator is read
         after = [s for i, s in enumerate(body.get("c", ())) if il is not None and i > il]
         stray = [pp(x)[:50] for s in after for x in walk(s) if x["k"] == "call" and x.get("op") == "[]" and pp(x["c"][0]) == "m_accumulators"]
